@@ -128,6 +128,10 @@ VARIANTS["C08"] = [
         "neighbors-loop-form", VW, "        if s == 1:\n            return {\n                i for n in self._id_dict[idx] for i in self._bi_id_dict[n]\n            }.difference({idx})",
         "        if s == 1:\n            nbrs = self._id_dict[idx]\n            out = set()\n            for n in nbrs:\n                out |= self._bi_id_dict[n]\n            out.discard(idx)\n            return out",
     ),
+    M2("new-public-fn-record_alias", [("xgi/utils/utilities.py", "__all__ = [\n    \"IDDict\",", "__all__ = [\n    \"record_alias\",\n    \"IDDict\","), ("xgi/utils/utilities.py", "\ndef dual_dict(edge_dict):", '\n\ndef record_alias(H):\n    data = {}\n    data["attrs"] = {n: H.nodes[n] for n in H.nodes}\n    for a in data["attrs"].values():\n        a["seen"] = True\n    return data\n' + "\n\n\ndef dual_dict(edge_dict):")], "P-PURE", "record_alias"),
+    M2("new-public-fn-list_alias", [("xgi/utils/utilities.py", "__all__ = [\n    \"IDDict\",", "__all__ = [\n    \"list_alias\",\n    \"IDDict\","), ("xgi/utils/utilities.py", "\ndef dual_dict(edge_dict):", '\n\ndef list_alias(H):\n    acc = []\n    for e in H.edges:\n        acc.append(H._edge[e])\n    for members in acc:\n        members.discard(None)\n    return len(acc)\n' + "\n\n\ndef dual_dict(edge_dict):")], "P-PURE", "list_alias"),
+    M2("new-public-fn-dict_copy_alias", [("xgi/utils/utilities.py", "__all__ = [\n    \"IDDict\",", "__all__ = [\n    \"dict_copy_alias\",\n    \"IDDict\","), ("xgi/utils/utilities.py", "\ndef dual_dict(edge_dict):", '\n\ndef dict_copy_alias(H):\n    d = dict(H._edge)\n    for k in d:\n        d[k].add(k)\n    return d\n' + "\n\n\ndef dual_dict(edge_dict):")], "P-PURE", "dict_copy_alias"),
+    M2("new-public-fn-map_lambda_effect", [("xgi/utils/utilities.py", "__all__ = [\n    \"IDDict\",", "__all__ = [\n    \"map_lambda_effect\",\n    \"IDDict\","), ("xgi/utils/utilities.py", "\ndef dual_dict(edge_dict):", '\n\ndef map_lambda_effect(H):\n    return list(map(lambda s: s.clear(), H._edge.values()))\n' + "\n\n\ndef dual_dict(edge_dict):")], "P-PURE", "map_lambda_effect"),
 ]
 VARIANTS["C08"] = [v for v in VARIANTS["C08"] if v["name"] != "neighbors-pops-self"]
 
